@@ -538,6 +538,16 @@ def run(chk):
                 continue
             if same_ is not True:
                 chk.violation('impl-vs-spec', desc | {'second element has the tail': ascii(e2.tail)}, {'deep-equal of an element and its copy': same_})
+            # comments and processing instructions are not compared: a copy with one inserted as first child of some element
+            e3 = build(mod, t)
+            target = rng.choice(list(e3.iter()))
+            target.insert(0, mod.Comment('c') if rng.random() < 0.5 else mod.ProcessingInstruction('pi', 'd'))
+            try:
+                with_comment = select(e1, 'deep-equal(., $o)', variables={'o': e3}, parser=XPath31Parser)
+            except ElementPathError as ex:
+                with_comment = 'raised ' + str(ex)[:100]
+            if with_comment is not True:
+                chk.violation('impl-vs-spec', desc | {'copy': ascii(mod.tostring(e3))[:300]}, {'deep-equal of an element and a copy with a comment / processing instruction': with_comment})
             if m is not None and diff_ is not False:
                 chk.violation('impl-vs-spec', desc | {'changed copy': ascii(ref_text(m))[:300]}, {'deep-equal of different elements': diff_})
             chk.nontrivial.add('de' + lib + ref_text(t))
